@@ -197,13 +197,23 @@ func genC04(t *rapid.T) ModelCase {
 	}
 	modelFriendly(a)
 	mode := modelModes[uniformN(t, len(modelModes), "mode")]
-	return ModelCase{App: a, Inputs: genGuidedHistory(t, a, 16, mode.PerRequest()), Mode: mode}
+	c := ModelCase{App: a, Mode: mode}
+	if mode.Kind == "persist" && chancePct(t, 40, "reuse") {
+		// a worker that keeps one persister for all sessions, another session taking turns
+		c.Mode.Reuse = []string{"keep", "keep", "flush"}[uniformN(t, 3, "reusekind")]
+		c.Prior = genGuidedHistory(t, a, 16, true)
+	}
+	c.Inputs = genGuidedHistory(t, a, 16, mode.PerRequest())
+	return c
 }
 
 func checkC04(c ModelCase) (o Outcome) {
 	asp := diffAspects{position: true, fetches: true, cont: true}
-	v, f, discard := modelDiff(c.App, c.Inputs, c.Mode, asp, nil)
+	v, f, discard := modelDiff(c.App, c.Inputs, c.Mode, asp, &diffHooks{prior: c.Prior})
 	o.Viol, o.Discard = v, discard
+	if c.Mode.Reuse != "" {
+		o.class("reused-persister:" + c.Mode.Reuse)
+	}
 	o.NonTrivial = f.descents >= 1 && (f.ascents+f.rewinds) >= 1 && f.maxDepth >= 2 && (f.laterals+f.repeats) >= 1
 	o.class("depth:%d", min(f.maxDepth, 6))
 	if f.laterals > 0 {
